@@ -31,6 +31,8 @@ EXPLANATION = (
     "whose completion is tested with `== 0` after the decrement is armed only with values provably >= 1 (max(duration, 1)) - "
     "armed with a configured 0 it never completes -, (c) the completed node scan scans every process, service and application "
     "unconditionally. R14.7 the numeric settings this property depends on are never tested by truthiness (`x or default`, `if x:`) - 0 is a legal value for them. "
+    "R14.3 also: the health-conditional cures (add_connection -> GOOD, first start/run -> GOOD) are reached only with the true health known "
+    "to be the condition they cure (OVERWHELMED, UNUSED; enum-state dataflow). "
     "NOT decided: "
     "'exactly N ticks' (counter arithmetic, including durations 0 and 1); what happens to a running fix when another "
     "event (compromise, overwhelm, web request) overwrites FIXING (needs a reference model); File(**model_dump()) in "
@@ -92,6 +94,13 @@ HEALTH_SETTER_CALLERS = {
     "Application.run": "first run of UNUSED software -> GOOD",
     "DatabaseService.restore_backup": "database restored from backup -> GOOD",
     "WebServer._handle_get_request": "database query effect: GOOD when the users query succeeds, COMPROMISED when it fails",
+}
+# R14.3: health-conditional cures: caller -> (value set, the only true-health states from which it may be set).  Each of these
+# events cures one specific condition; taken from any other state it would end a compromise or a fix without the fix having run.
+HEALTH_SET_FROM = {
+    "IOSoftware.add_connection": ("GOOD", {"OVERWHELMED"}, "room for connections again ends an OVERWHELMED condition, nothing else"),
+    "Service.start": ("GOOD", {"UNUSED"}, "first start brings UNUSED software to GOOD; a restart does not cure anything"),
+    "Application.run": ("GOOD", {"UNUSED"}, "first run brings UNUSED software to GOOD; a re-run does not cure anything"),
 }
 # R14.4: countdown -> (class, start function, duration field, receiver texts of the duration, tick function)
 TIMERS = {
@@ -456,6 +465,21 @@ def r14_3(ctx: Ctx) -> None:
         ctx.record("R14.3", uniq(f"{cs.path}::{cs.owner}::call set_health_state({arg})"), cs.where, ok,
                    HEALTH_SETTER_CALLERS.get(cs.owner, "software health set from a function that is not an explicit health event"))
     ctx.floor("R14.3", "set_health_state call sites", m, 10)
+    # health-conditional cures are taken only from the condition they cure
+    for owner, (val, srcs, why) in HEALTH_SET_FROM.items():
+        f = ix.method(owner)
+        g = CFG(f.node)
+        flow = state_flow(g, "self", ["health_state_actual"], HEALTH)
+        sites = [x for x in nodes_calling(g, ["set_health_state"]) if any(
+            call_name(c) == "set_health_state" and c.args and unparse(c.args[0]).endswith("." + val) for c in node_calls(x))]
+        if not sites:
+            raise AnalysisError(f"R14.3: {owner} no longer calls set_health_state({val})")
+        for x in sites:
+            got = set(flow.get(x.id, frozenset(HEALTH)))
+            ctx.record("R14.3", ctx.key(f, f"set_health_state({val}) only from {sorted(srcs)}"), f.loc(x.ast), got <= srcs,
+                       f"reached with true health in {sorted(got)}: {why}" if got <= srcs else
+                       f"set_health_state({val}) is reached with true health in {sorted(got)}: {why} - from {sorted(got - srcs)} it ends "
+                       "that condition without its own cure")
     # the setter itself stores exactly its argument into the same object
     sh = ix.method("Software.set_health_state")
     g = CFG(sh.node)
